@@ -373,6 +373,8 @@ class ClockDevice {
 
 // Exhaustive (start phase x single poll gap) sweep for C13, thorough tier supplement.
 int sweepClockKeep(uint32_t phaseFrom, uint32_t phaseCount);
+// Bounded exhaustive enumeration for C14 (thorough tier supplement): all op sequences to a depth bound.
+int enumClockSync(unsigned job, unsigned jobs, unsigned depth);
 Trace genClockKeep(uint64_t seed);
 Trace genClockSync(uint64_t seed);
 
